@@ -300,6 +300,30 @@ def check_count_routes(prog, rep, rule='R6.6'):
                         % (short, rc, rw), func=cf.id)
     if n < 3:
         raise AnalysisBroken('%s: fewer than 3 classes with both a counter and a writer instantiation' % rule)
+    # chained `counter << a << b` must count a and b in the same object: the operators hand back a reference to *this, never a copy
+    n_ops = 0
+    seen = set()
+    for f in sorted(prog.funcs.values(), key=lambda g: g.id):
+        if f.body is None or strip_targs(f.cls or '') != 'BitSerializer::FieldsCountVisitor' or not f.name.startswith('operator'):
+            continue
+        ret = f.tu['types'][f.sym['ret']] if 'ret' in f.sym else ''
+        key = (f.relfile, f.raw.get('l', f.loc()))
+        n_ops += 1
+        rep.touch(f)
+        site = 'chaining|%s at %s' % (f.name, f.loc())
+        rets = [x for x in f.walk() if x['k'] == 'ReturnStmt']
+        this_ok = all(any(y['k'] == 'CXXThisExpr' for y in f.walk(x)) for x in rets) and bool(rets)
+        if ret.rstrip().endswith('&') and 'FieldsCountVisitor' in ret and this_ok:
+            if key not in seen:
+                rep.ok(rule, site)
+        else:
+            if key not in seen:
+                rep.finding(rule, 'chaining|%s returns %s' % (f.name, 'a copy' if not ret.rstrip().endswith('&') else 'another object'), f.loc(),
+                            'FieldsCountVisitor::%s returns %s: in `archive << BaseObject<B>(*this) << KeyValue(...)` the fields after it are counted on a '
+                            'temporary, the map header declares fewer entries than are written' % (f.name, ret), func=f.id)
+        seen.add(key)
+    if n_ops < 2:
+        raise AnalysisBroken('%s: operator<< overloads of FieldsCountVisitor not found' % rule)
 
 
 def check_floor_split(prog, rep, rule='R6.3'):
